@@ -402,6 +402,13 @@ impl<TStdlib: Stdlib, TStdIn: Input, TStdOut: Printer, TLpt1: Printer>
                 registers::push_registers(self);
             }
             Instruction::PopRegisters => {
+                // after a GOTO into the body of a FOR loop, NEXT finds no register
+                // frame of its loop: the frame below belongs to the enclosing call
+                let floor = self.nesting_bases.last().map_or(1, |base| base.registers);
+                if self.register_stack.len() <= floor {
+                    return Err(RuntimeError::Other("NEXT without FOR".to_owned()))
+                        .with_err_at(&pos);
+                }
                 registers::pop_registers(self);
             }
             Instruction::LoadIntoA(v) => {
@@ -677,6 +684,15 @@ impl<TStdlib: Stdlib, TStdIn: Input, TStdOut: Printer, TLpt1: Printer>
                 self.value_stack.push(v);
             }
             Instruction::PopValueStackIntoA => {
+                // after a GOTO into a SELECT CASE block, END SELECT finds no value of
+                // its SELECT: what is below belongs to the enclosing call
+                let floor = self.nesting_bases.last().map_or(0, |base| base.values);
+                if self.value_stack.len() <= floor {
+                    return Err(RuntimeError::Other(
+                        "END SELECT without SELECT CASE".to_owned(),
+                    ))
+                    .with_err_at(&pos);
+                }
                 let v = self.value_stack.pop().expect("value_stack underflow!");
                 self.registers_mut().set_a(v);
             }
